@@ -57,6 +57,8 @@ def run(ctx):
         keys = R.key_classes('des' if c == 'tdea' else c, n if c != 'tdea' else 8, rnd, 16 if big else 2, 20 if big else 2)
         if c == 'tdea':
             keys = [bytes(rnd.randrange(256) for _ in range(n)) for _ in range(len(keys) // 2)] + [k * (n // 8) for k in keys[-4:]]
+            A, Bk = keys[-1][:8], bytes(rnd.randrange(256) for _ in range(8))                 # every equality pattern of the DES keys
+            keys += ([A + Bk + Bk, A + A + Bk, A + Bk + A] if n == 24 else [A + A, A + Bk])
         for ki, K in enumerate(keys):
             T = bytes(rnd.randrange(256) for _ in range(16)) if c == 'threefish' else b''
             obj = R.construct(c, [K], T); cirec = R.ci(c, [K], T)
@@ -64,7 +66,34 @@ def run(ctx):
             for blk in blocks:
                 ev.append(R.ev_pair_blocks(obj, cirec, blk)); ctx.mark((c, n, ki, blk.hex()[:12]))
                 e1 = R.ev_crypt(obj, cirec, 'enc', blk); ev.append(e1)            # "both wrong consistently" is caught by the spec comparison
+                if ki % 2:                                                        # another, differently keyed object of the class is built and used between enc and dec
+                    try:
+                        K2 = bytes(b ^ 0x5a for b in K); o2 = R.construct(c, [K2], bytes(16) if c == 'threefish' else b''); o2.enc(blk)
+                    except Exception: pass
                 if not e1['raised'] and len(e1['obs']) == bl: ev.append(R.ev_crypt(obj, cirec, 'dec', bytes(e1['obs'])))
+        # the key (and tweak) handed over as a mutable Bits object that its owner edits afterwards: the cipher keeps the key it was built with
+        from crysp.bits import Bits
+        K = bytes(rnd.randrange(256) for _ in range(n)); T = bytes(rnd.randrange(256) for _ in range(16)) if c == 'threefish' else b''
+        if c != 'tdea':
+            try:
+                KB = Bits(K, bitorder=1); TB = Bits(T, bitorder=1) if T else None
+                from crysp import aes, des, serpent, threefish
+                obj = {'aes': aes.AES, 'des': des.DES, 'serpent': serpent.Serpent}[c](KB) if c != 'threefish' else threefish.Threefish(KB, TB)
+            except Exception: obj = None
+            if obj is not None:
+                cirec = R.ci(c, [K], T); blk = bytes(rnd.randrange(256) for _ in range(bl))
+                probe = R.ev_crypt(R.construct(c, [K], T), cirec, 'enc', blk)
+                e0 = R.ev_crypt(obj, cirec, 'enc', blk)
+                if not probe['raised'] and e0['obs'] == probe['obs']:            # this keying form means the same key as the byte string (else it is C02's business)
+                    ev.append(e0)
+                    if len(KB) != 8 * n: ev.append(dict(op='new', ci=cirec, raised='KeyObjectChangedByConstructor'))
+                    try:
+                        KB[0] = 1 - KB.bit(0); KB[len(KB) - 1] = 1 - KB.bit(len(KB) - 1)
+                        if TB is not None: TB[0] = 1 - TB.bit(0); TB[64:128] = 0
+                    except Exception: pass
+                    e1 = R.ev_crypt(obj, cirec, 'enc', blk); ev.append(e1)
+                    if not e1['raised'] and len(e1['obs']) == bl: ev.append(R.ev_crypt(obj, cirec, 'dec', bytes(e1['obs'])))
+                    ctx.mark((c, n, 'mutable-key-object'))
     ctx.sample(ev[0]); ctx.sample(ev[-1])
     R.validate(ctx, ev, 'end-to-end round trips')
     obj = R.construct('des', [bytes(8)]); clean = dict(ev=[R.ev_pair_blocks(obj, R.ci('des', [bytes(8)]), bytes(range(8)))])
